@@ -92,4 +92,4 @@ def unique_tokens(src):
     tk = sig_tokens(src)
     if tk is None:
         return None
-    return [t.string for t in tk if is_unique_kind(t)]
+    return [t.string.rstrip() if t.type == tokenize.COMMENT else t.string for t in tk if is_unique_kind(t)]
